@@ -255,4 +255,5 @@ def analyse_measure_like(prog, m, amp, q, sp, KS, KP):
     rets = [n for n in g.nodes if n.kind == 'return']
     info['returns_res'] = bool(rets) and all(SX.is_node(SX.strip(n.e.get('e'))) and SX.strip(n.e['e']).get('id') == res_id for n in rets)
     info['res_id'] = res_id
+    info['p1_id'] = p1_id
     return info
